@@ -449,7 +449,7 @@ fn recompute_new_coin(i: &mut Inst) {
     i.new_coin.0 = mc::coin_id(&i.new_parent.0, &i.new_parent.1, i.new_parent.2);
 }
 
-pub const KINDS: [&str; 23] = [
+pub const KINDS: [&str; 27] = [
     "coin-amount-even",
     "coin-and-solution-amount-even",
     "new-parent-amount-even",
@@ -473,6 +473,10 @@ pub const KINDS: [&str; 23] = [
     "puzzle-not-curried",
     "eve-proof-shape",
     "eve-proof-genuine",
+    "coins-carry-hash-of-sibling-puzzle:other-launcher-puzzle-hash",
+    "coins-carry-hash-of-sibling-puzzle:other-launcher-id",
+    "coins-carry-hash-of-sibling-puzzle:other-inner-puzzle",
+    "coins-and-lineage-follow-sibling-puzzle:other-launcher-puzzle-hash",
 ];
 
 fn set_all_ph(i: &mut Inst, ph: [u8; 32]) {
@@ -571,6 +575,43 @@ fn corrupt(kind: usize, s: &mut Src<'_>, g: &Inst, f: &Facts, spec: Option<&Spec
             i.puzzle = condgen::tagged_identity(&mut i.ht.t, 2);
             let ph = i.ht.hash(i.puzzle);
             set_all_ph(&mut i, ph);
+        }
+        23..=26 => {
+            // the three coins carry the puzzle hash of a *sibling* singleton: the
+            // same reveal with exactly one curried component replaced (the launcher
+            // puzzle hash by the standard one or by another value, the launcher id,
+            // the inner puzzle). The reveal itself is untouched, so it does not hash
+            // to the stated coin's puzzle hash: not a spend of that coin.
+            const STRUCT_LAUNCHER_ID: &[u8] = &[R, R, L, R, L, R, R, L];
+            const STRUCT_LAUNCHER_PH: &[u8] = &[R, R, L, R, L, R, R, R];
+            let sib = match kind {
+                23 | 26 => {
+                    let cur = atom32(&i.ht.t, i.puzzle, STRUCT_LAUNCHER_PH);
+                    let other = if cur == chia_puzzles::SINGLETON_LAUNCHER_HASH { x32 } else { chia_puzzles::SINGLETON_LAUNCHER_HASH };
+                    let n = i.ht.t.atom(&other);
+                    replace_at(&mut i.ht.t, i.puzzle, STRUCT_LAUNCHER_PH, n).unwrap()
+                }
+                24 => {
+                    let n = i.ht.t.atom(&x32);
+                    replace_at(&mut i.ht.t, i.puzzle, STRUCT_LAUNCHER_ID, n).unwrap()
+                }
+                _ => {
+                    let n = condgen::tagged_identity(&mut i.ht.t, 3);
+                    replace_at(&mut i.ht.t, i.puzzle, PUZ_INNER, n).unwrap()
+                }
+            };
+            let sib_ph = i.ht.hash(sib);
+            assert_ne!(sib_ph, f.full_ph, "sibling puzzle must differ");
+            if kind == 26 {
+                let st = get_at(&i.ht.t, sib, PUZ_STRUCT).unwrap();
+                let sh = i.ht.hash(st);
+                let lineage_inner = get_at(&i.ht.t, i.solution, SOL_INNER_PH).and_then(|id| i.ht.t.atom_bytes(id).and_then(|b| <[u8; 32]>::try_from(b).ok()));
+                if let Some(li) = lineage_inner {
+                    let parent_ph = curry_hash(&f.struct_mod_hash, &[sh, li]);
+                    i.coin.0 = mc::coin_id(&f.pp, &parent_ph, f.parent_amount);
+                }
+            }
+            set_all_ph(&mut i, sib_ph);
         }
         21 => {
             let n = N::L(vec![a(&f.pp), int(f.parent_amount)]).to_tree(&mut i.ht.t);
